@@ -398,7 +398,13 @@ pub fn check_satisfiable(name: &str, version: Option<&semver::Version>, bytes: &
     let Some(dep) = tr[outc].imports.get(&dep_name).cloned() else {
         return Err(("C08/unlocked-dep-import-missing".into(), format!("the output has no import `{dep_name}`; imports: {:?}", tr[outc].imports.keys().collect::<Vec<_>>())));
     };
-    if !ComponentEntityType::is_subtype_of(&ComponentEntityType::Component(orig), tr, &dep, tr) {
+    // the reference relation itself can hit an internal assertion of wasmparser (seen with one type exported
+    // under two names): inconclusive for this case, never a verdict
+    let related = match guarded(|| ComponentEntityType::is_subtype_of(&ComponentEntityType::Component(orig), tr, &dep, tr)) {
+        Ok(b) => b,
+        Err(_) => return Ok(1),
+    };
+    if !related {
         return Err(("C08/original-does-not-satisfy-reencoded-type".into(), format!("the real component is not a subtype of the component type written for `{dep_name}` (substituting it for the import would not validate)")));
     }
     Ok(2)
@@ -486,6 +492,12 @@ pub struct ShapedCase {
 fn shaped_pool() -> Vec<(String, String)> {
     let mut v: Vec<(String, String)> = SHAPED.iter().map(|(n, w)| (n.to_string(), w.to_string())).collect();
     v.extend(crate::props::c14::SHAPED_WAT.iter().map(|(n, w)| (format!("c14:{n}"), w.to_string())));
+    // components whose worlds `use` types at world level (built by the reference toolchain), as text
+    for (n, _, b) in crate::props::c14::world_use_docs().0 {
+        if let Ok(t) = wasmprinter::print_bytes(&b) {
+            v.push((format!("world-use:{n}"), t));
+        }
+    }
     v
 }
 
